@@ -239,6 +239,74 @@ fn concat_train_idx_views(
     }
 }
 
+/// Verification hook H2 (feature `nrel_altrios_verif`, default off, adds code only): public wrappers
+/// around the three private sentinel scans so that they can be driven directly with generated vectors.
+#[cfg(feature = "nrel_altrios_verif")]
+pub mod verif_scans {
+    use super::*;
+
+    /// Mirror of the private `LinkOptType` (only the variants `find_train_intersect` accepts).
+    #[derive(Debug, Clone, Copy)]
+    pub enum LinkOpt {
+        Single(LinkIdx),
+        /// (link_idx_min, link_idx_diff)
+        Range(usize, usize),
+        Check,
+    }
+
+    pub fn calc_idx_sentinels(
+        div_idx: usize,
+        train_idx_sentinel: TrainIdx,
+        div_nodes: &[DivergeNode],
+    ) -> (usize, usize) {
+        super::calc_idx_sentinels(div_idx, train_idx_sentinel, div_nodes)
+    }
+
+    pub fn find_train_intersect(
+        idx_split: usize,
+        idx_sentinel: usize,
+        link_opt: LinkOpt,
+        link_idx_path: &mut [LinkIdx],
+        links_blocked: &[TrainIdx],
+    ) -> usize {
+        let link_opt_type = match link_opt {
+            LinkOpt::Single(link_idx) => LinkOptType::Single(link_idx),
+            LinkOpt::Range(link_idx_min, link_idx_diff) => {
+                LinkOptType::Range(link_idx_min, link_idx_diff)
+            }
+            LinkOpt::Check => LinkOptType::Check,
+        };
+        super::find_train_intersect(
+            idx_split,
+            idx_sentinel,
+            &link_opt_type,
+            link_idx_path,
+            links_blocked,
+        )
+    }
+
+    pub fn add_blocking_trains(
+        trains_blocking: &mut Vec<TrainIdx>,
+        trains_view_base: &TrainIdxsView,
+        trains_view_add: &TrainIdxsView,
+    ) -> TrainIdxsView {
+        super::add_blocking_trains(trains_blocking, trains_view_base, trains_view_add)
+    }
+
+    /// `LinkOptType::new` as (tag, a, b): 0 None, 1 Single(a), 2 Range(a = min, b = diff), 3 Check
+    pub fn link_opt_type_new(
+        link_idxs_blocking: &[LinkIdx],
+        link_idxs_on_path: &IntSet<LinkIdx>,
+    ) -> (u8, usize, usize) {
+        match LinkOptType::new(link_idxs_blocking, link_idxs_on_path) {
+            LinkOptType::None => (0, 0, 0),
+            LinkOptType::Single(link_idx) => (1, link_idx.idx(), 0),
+            LinkOptType::Range(link_idx_min, link_idx_diff) => (2, link_idx_min, link_idx_diff),
+            LinkOptType::Check => (3, 0, 0),
+        }
+    }
+}
+
 /// Return status from update_free_path function
 pub enum FreePathStatus {
     /// Free path is valid
